@@ -14,12 +14,12 @@ Arguments N.of_nat : simpl never.
 Definition transient (k : kres) : bool :=
   match k with Err e => negb (is_fatal e) | _ => false end.
 
-(* the same history without the transient faults: a failed write of a non-empty block is a
-   write that took nothing; a failed write of an empty block, a failed drain, a failed read and
-   a POLLERR simply did not happen *)
+(* the same history without the transient faults: a failed write of a block (sendInLoop on either
+   path) is a write that took nothing - the user's send() call itself is never erased, an empty
+   one included (REVIEW_C item 4); a failed drain, a failed read and a POLLERR simply did not happen *)
 Definition calm (o : op) : list op :=
   match o with
-  | Send d k => if transient k then match d with [] => [] | _ => [Send d (Accept 0)] end else [o]
+  | Send d k => if transient k then [Send d (Accept 0)] else [o]
   | RunOne k => if transient k then [RunOne (Accept 0)] else [o]
   | EvWritable k => if transient k then [] else [o]
   | EvReadErr | EvError => []
@@ -37,7 +37,7 @@ Definition faultless (o : op) : bool :=
 Lemma calm_faultless o : forallb faultless (calm o) = true.
 Proof.
   destruct o; cbn; try reflexivity.
-  - destruct (transient k) eqn:E; [destruct d; reflexivity|]. cbn. rewrite E. reflexivity.
+  - destruct (transient k) eqn:E; [reflexivity|]. cbn. rewrite E. reflexivity.
   - destruct (transient k) eqn:E; [reflexivity|]. cbn. rewrite E. reflexivity.
   - destruct (transient k) eqn:E; [reflexivity|]. cbn. rewrite E. reflexivity.
 Qed.
@@ -48,12 +48,15 @@ Proof.
     intros H; apply negb_true_iff in H; rewrite H; reflexivity.
 Qed.
 
-(* environment contract: the kernel never answers the zero-length write of a queued foreign
-   block with a transient error (write(fd, p, 0) on a socket returns 0).  Without it the model
-   shows one visible difference: no write-complete callback for that empty block. *)
+(* environment contract: the kernel never answers a ZERO-LENGTH write with a transient error
+   (write(fd, p, 0) on a socket returns 0) - be it the write of a queued foreign empty block or
+   the direct write of a loop-thread send("") (the latter only happens when nothing is queued and
+   write interest is off).  Without it the model shows one visible difference: no write-complete
+   callback for that empty block. *)
 Definition env_ok (c : conn) (o : op) : Prop :=
   match o with
   | RunOne k => match pending c with FSend _ [] :: _ => transient k = false | _ => True end
+  | Send [] k => if negb (writing c) && (length (outb c) =? 0) then transient k = false else True
   | _ => True
   end.
 
@@ -100,19 +103,11 @@ Proof.
   unfold send_res, s_q, s_hw, s_queue, s_rem. rewrite H1, H2, H3. reflexivity.
 Qed.
 
-Lemma s_empty_err c k p : transient k = true -> send_res c [] k p = set_pending c p.
+(* when sendInLoop does not write directly (something is queued, or write interest is on) the
+   kernel is not asked at all *)
+Lemma send_res_indirect c d k k' p : s_direct c = false -> send_res c d k p = send_res c d k' p.
 Proof.
-  intros Ht. destruct k as [| |e]; try discriminate.
-  assert (Hn : s_nwrote c [] (Err e) = 0).
-  { unfold s_nwrote, effective. destruct (s_direct c); [|reflexivity]. destruct (fin c); reflexivity. }
-  assert (Hok : s_ok c (Err e) = false).
-  { unfold s_ok, effective. destruct (s_direct c); [|reflexivity]. destruct (fin c); reflexivity. }
-  assert (Hq : s_queue c [] (Err e) = false).
-  { unfold s_queue, s_rem. rewrite Hn. cbn. apply andb_false_r. }
-  assert (Hs : s_q c [] (Err e) = []).
-  { unfold s_q, s_wc, s_hw. rewrite Hok, Hq. reflexivity. }
-  unfold send_res, set_pending. rewrite Hn, Hq, Hs. cbn [firstn].
-  destruct (s_fatal c (Err e)); rewrite !app_nil_r; reflexivity.
+  intros H. unfold send_res, s_q, s_hw, s_wc, s_queue, s_rem, s_nwrote, s_fatal, s_ok. rewrite H. reflexivity.
 Qed.
 
 (* ---- one step ----------------------------------------------------------------------------- *)
@@ -130,24 +125,18 @@ Proof.
   - (* Send *)
     unfold step in H. cbn [user_op andb] in H.
     destruct (cstate_eqb (st c) Connecting) eqn:Ec; [discriminate|].
-    destruct d as [|b d].
-    + exists []. cbn [run]. 
-      destruct (cstate_eqb (st c) Connected) eqn:Es; unfold ok in H.
-      * rewrite sendInLoop_nf' in H.
-        destruct (cstate_eqb (st c) Disconnected) eqn:Ed; injection H as <- <-.
-        -- apply cstate_eqb_true in Es, Ed. congruence.
-        -- rewrite (s_empty_err c k (pending c) Ef), quiet_s_evs. unfold set_pending.
-           rewrite conn_eta. auto.
-      * injection H as <- <-. auto.
-    + assert (Hd : b :: d <> []) by discriminate.
-      cbn [run]. unfold step. cbn [user_op andb]. rewrite Ec.
-      destruct (cstate_eqb (st c) Connected) eqn:Es; unfold ok in *.
-      * rewrite sendInLoop_nf' in *.
-        destruct (cstate_eqb (st c) Disconnected) eqn:Ed; injection H as <- <-.
-        -- eexists. split; reflexivity.
-        -- rewrite (send_res_calm c (b :: d) k (pending c) Hd Ef).
-           eexists. split; [reflexivity|]. rewrite app_nil_r, !quiet_s_evs. reflexivity.
-      * injection H as <- <-. eexists. split; reflexivity.
+    assert (Hres : send_res c d k (pending c) = send_res c d (Accept 0) (pending c)).
+    { destruct d as [|b d].
+      - cbn [env_ok] in Henv. change (negb (writing c) && (length (outb c) =? 0)) with (s_direct c) in Henv.
+        destruct (s_direct c) eqn:Hd; [congruence|]. apply send_res_indirect, Hd.
+      - apply send_res_calm; [discriminate|exact Ef]. }
+    cbn [run]. unfold step. cbn [user_op andb]. rewrite Ec.
+    destruct (cstate_eqb (st c) Connected) eqn:Es; unfold ok in *.
+    + rewrite sendInLoop_nf' in *.
+      destruct (cstate_eqb (st c) Disconnected) eqn:Ed; injection H as <- <-.
+      * eexists. split; reflexivity.
+      * rewrite Hres. eexists. split; [reflexivity|]. rewrite app_nil_r, !quiet_s_evs. reflexivity.
+    + injection H as <- <-. eexists. split; reflexivity.
   - (* RunOne *)
     unfold step in H. cbn [user_op andb] in H. cbn [env_ok] in Henv.
     cbn [run]. unfold step. cbn [user_op andb].
@@ -283,6 +272,21 @@ Proof.
   vm_compute. repeat split.
 Qed.
 
+(* ... and the same for the DIRECT zero-length write of a loop-thread send(""): this is why [env_ok]
+   also speaks about [Send [] k] when nothing is queued (REVIEW_C item 4: the earlier [calm] erased the
+   user's call instead) *)
+Theorem empty_send_fault_visible :
+  exists c c1 c2 e1 e2, reach c /\
+    step c (Send [] (Err EAGAIN)) = Ok (c1, e1) /\ step c (Send [] (Accept 0)) = Ok (c2, e2) /\
+    pending c1 = [] /\ pending c2 = [FWriteComplete].
+Proof.
+  destruct (run (init 4%N true true) [Establish]) as [[c e]| |] eqn:E;
+    try (vm_compute in E; discriminate).
+  exists c. assert (Hr : reach c) by (eapply run_reach; [apply reach_init|exact E]).
+  vm_compute in E. injection E as <- _. eexists _, _, _, _. split; [exact Hr|].
+  vm_compute. repeat split.
+Qed.
+
 (* non-vacuity: a history with faults at every injection site of a connection, and its calmed
    version; both end in the same state *)
 Definition ex_faulty : list op :=
@@ -298,7 +302,7 @@ Definition ex_faulty : list op :=
 Example ex_faulty_calm :
   flat_map calm ex_faulty =
   [ Establish; Send [x61; x62; x63] (Accept 0); FSendCheck 2; FSendEnq 2 [x64];
-    RunOne (Accept 0); EvWritable (Accept 2); EvWritable AcceptAll; RunOne (Accept 0);
+    RunOne (Accept 0); EvWritable (Accept 2); Send [] (Accept 0); EvWritable AcceptAll; RunOne (Accept 0);
     RunOne AcceptAll ].
 Proof. reflexivity. Qed.
 
@@ -317,7 +321,7 @@ Proof. reflexivity. Qed.
 Lemma calm_unfold : forall o,
   calm o =
   match o with
-  | Send d k => if transient k then match d with [] => [] | _ => [Send d (Accept 0)] end else [o]
+  | Send d k => if transient k then [Send d (Accept 0)] else [o]
   | RunOne k => if transient k then [RunOne (Accept 0)] else [o]
   | EvWritable k => if transient k then [] else [o]
   | EvReadErr | EvError => []
@@ -345,6 +349,7 @@ Lemma env_ok_unfold : forall c o,
   env_ok c o =
   match o with
   | RunOne k => match pending c with FSend _ [] :: _ => transient k = false | _ => True end
+  | Send [] k => if negb (writing c) && (length (outb c) =? 0) then transient k = false else True
   | _ => True
   end.
 Proof. reflexivity. Qed.
